@@ -564,6 +564,8 @@ pub struct RunOpts {
     pub skip_sends: BTreeSet<usize>,
     /// start the probe phase no earlier than this instant (twin runs)
     pub probe_start_at: Option<u64>,
+    /// bounded liveness: once faults have stopped, a fresh request must be delivered within 3 exchanges
+    pub probe_fresh_request: bool,
 }
 
 #[derive(Clone, Debug, PartialEq, Eq, PartialOrd, Ord)]
@@ -614,6 +616,7 @@ struct World<'a> {
     n_srv: usize,
     n_retry: usize,
     n_send: usize,
+    probe_stage: u8,
     s2c_last_at: u64,
     c2s_last_at: u64,
     stall_until: u64,
@@ -941,13 +944,15 @@ impl<'a> World<'a> {
         let Some(tx) = self.ledger.txs.iter().rev().find(|t| t.id == id && t.gen == gen) else {
             return;
         };
-        if tx.probe {
+        let fresh = Some(tx.app) == self.ledger.fresh_probe_app;
+        if tx.probe && !fresh {
             return;
         }
         let app = tx.app;
         // retries left for this application request: count earlier transactions of the same app
         let used = self.ledger.txs.iter().filter(|t| t.app == app).count() as u32 - 1;
-        if used >= self.cfg.retry_budget {
+        let budget = if fresh { 2 } else { self.cfg.retry_budget };
+        if used >= budget {
             return;
         }
         let n = self.n_retry;
@@ -979,7 +984,7 @@ impl<'a> World<'a> {
         }
         if !ignore {
             let at = self.now + delay;
-            self.push(at, EvKind::Resend { app, left: self.cfg.retry_budget - used });
+            self.push(at, EvKind::Resend { app, left: budget - used });
         }
     }
 
@@ -1608,11 +1613,8 @@ impl<'a> World<'a> {
                 break;
             }
             let Some(Reverse(ev)) = self.heap.pop() else {
-                if self.phase == Phase::Quiesce {
+                if (self.phase == Phase::Quiesce || self.phase == Phase::Probe) && self.probe_stage < 3 {
                     self.probe_phase();
-                    if self.heap.is_empty() {
-                        break;
-                    }
                     continue;
                 }
                 break;
@@ -1651,6 +1653,8 @@ impl<'a> World<'a> {
                 EvKind::EndOfFaults => {
                     self.phase = Phase::Quiesce;
                     self.ledger.quiesce_from = Some(self.ledger.steps.len());
+                    // from now on the server is honest, and lenient on exactly the two pinned request shapes
+                    self.server.cfg.lenient = true;
                     // a controller whose timer was dropped by a restart or is very late still has it armed;
                     // nothing to do: the armed timer (if any) fires from the heap.
                 }
@@ -1670,6 +1674,7 @@ impl<'a> World<'a> {
                         }
                         self.phase = Phase::Quiesce;
                         self.ledger.quiesce_from = Some(self.ledger.steps.len());
+                        self.server.cfg.lenient = true;
                     }
                 }
             }
@@ -1680,12 +1685,36 @@ impl<'a> World<'a> {
 
     /// Probes issued once the run is quiescent (heap empty, faults stopped).
     fn probe_phase(&mut self) {
-        self.phase = Phase::Probe;
-        // twin runs probe at the instant the original run did
-        if let Some(at) = self.opts.probe_start_at {
-            self.now = self.now.max(at);
+        let stage = self.probe_stage;
+        self.probe_stage += 1;
+        if stage == 0 {
+            self.phase = Phase::Probe;
+            // twin runs probe at the instant the original run did
+            if let Some(at) = self.opts.probe_start_at {
+                self.now = self.now.max(at);
+            }
+            self.ledger.probe_start_ns = Some(self.now);
         }
-        self.ledger.probe_start_ns = Some(self.now);
+        if self.ledger.panicked().is_some() {
+            return;
+        }
+        if stage == 1 {
+            if self.opts.probe_fresh_request {
+                // the server starts a fresh session: whatever was negotiated under faults is forgotten
+                self.server.reset_session();
+                let a = AppAction { t: self.now, ind: false, method: 1, attrs: "-".into(), buf: 1024, fill: 0 };
+                let app = self.apps.len();
+                self.apps.push(Some(a.clone()));
+                self.ledger.fresh_probe_app = Some(app);
+                self.now += 1000;
+                self.do_send(app, &a);
+            }
+            return;
+        }
+        if stage == 2 {
+            self.capacity_probe();
+            return;
+        }
         if self.opts.probe_late_responses {
             // a correctly protected response for finished transactions: must be rejected
             let fin: Vec<Id> = self
@@ -1716,6 +1745,9 @@ impl<'a> World<'a> {
             self.now += 1000;
             self.do_timeout(None, true);
         }
+    }
+
+    fn capacity_probe(&mut self) {
         if self.opts.probe_capacity && self.cfg.max_tx <= 16 && self.ledger.panicked().is_none() {
             let a = AppAction { t: self.now, ind: false, method: 1, attrs: "-".into(), buf: 1024, fill: 0 };
             let app = self.apps.len();
@@ -1785,6 +1817,7 @@ pub fn run(src: &mut Source, profile: &Profile, opts: &RunOpts) -> RunResult {
         stats: Stats::default(),
         quiesce_from: None,
         probe_start_ns: None,
+        fresh_probe_app: None,
         truncated: false,
         custom: vec![],
         custom_log: vec![],
@@ -1810,6 +1843,7 @@ pub fn run(src: &mut Source, profile: &Profile, opts: &RunOpts) -> RunResult {
         n_srv: 0,
         n_retry: 0,
         n_send: 0,
+        probe_stage: 0,
         s2c_last_at: 0,
         c2s_last_at: 0,
         stall_until: 0,
